@@ -52,6 +52,16 @@ void GMGPolar::setup()
         levels_.emplace_back(level_depth, std::move(current_grid), std::move(current_levelCache), extrapolation_, FMG_);
     }
 
+#ifdef GMGPOLAR_VERIF
+    if (gmgpolar_verif::sink())
+        gmgpolar_verif::registry().n = 0;
+    for (int d = 0; gmgpolar_verif::sink() && d < number_of_levels_; d++) {
+        gmgpolar_verif::reg_vec(levels_[d].solution().begin(), 4 * d + 0);
+        gmgpolar_verif::reg_vec(levels_[d].rhs().begin(), 4 * d + 1);
+        gmgpolar_verif::reg_vec(levels_[d].residual().begin(), 4 * d + 2);
+        gmgpolar_verif::reg_vec(levels_[d].error_correction().begin(), 4 * d + 3);
+    }
+#endif
     auto end_setup_createLevels = std::chrono::high_resolution_clock::now();
     t_setup_createLevels += std::chrono::duration<double>(end_setup_createLevels - start_setup_createLevels).count();
 
@@ -81,6 +91,7 @@ void GMGPolar::setup()
     // ------------------------------------- //
     LIKWID_STOP("Setup");
     build_rhs_f(levels_[0], levels_[0].rhs());
+    VERIF_OP1("Build", 0, levels_[0].rhs());
     LIKWID_START("Setup");
 
     /* ---------------- */
@@ -97,6 +108,7 @@ void GMGPolar::setup()
         }
         // Discretize the rhs for the current level
         discretize_rhs_f(current_level, current_level.rhs());
+        VERIF_OP1("Disc", level_depth, current_level.rhs());
     }
 
     auto end_setup_rhs = std::chrono::high_resolution_clock::now();
